@@ -64,6 +64,7 @@ type interpreter struct {
 	mutexHeld          map[*value]int
 	opaque             map[*value][]value
 	panicTrace         string
+	boxSeq             int
 }
 
 type deferred struct {
@@ -354,7 +355,7 @@ func visitInstr(fr *frame, instr ssa.Instruction) continuation {
 
 	case *ssa.MapUpdate:
 		m := fr.get(instr.Map)
-		key := fr.concKey(fr.get(instr.Key))
+		key := fr.mapUpdateKey(m, fr.get(instr.Key))
 		v := fr.get(instr.Value)
 		switch m := m.(type) {
 		case map[value]value:
